@@ -419,23 +419,42 @@ Fixpoint run_lends (now : Z) (xs : list ext) (le : list lenv) (arr : list (Z * Z
            end
   end.
 
-(* rewards.BeginBlocker (stable-mint programs absent) *)
+(* rewards.BeginBlocker (stable-mint programs absent), abci.go after fix b2d3331.  ONE outer
+   ApplyFuncIfNoError around everything; inside it, in this order:
+     1. k.TriggerAndUpdateEpochInfos(ctx)          - directly on the outer cache context
+     2. ApplyFuncIfNoError(DistributeExtRewardLocker)   - own cache context
+     3. ApplyFuncIfNoError(DistributeExtRewardVault)    - own cache context
+     4. ApplyFuncIfNoError(DistributeExtRewardLend)     - own cache context
+     (5. CombinePSMUserPositions, 6. DistributeExtRewardStableVault: own cache contexts, not modelled)
+   and the outer closure returns nil.  So: a panic in step 1 (the gauges) is recovered by the OUTER
+   wrapper and nothing at all is written, steps 2-4 do not run.  An error or panic in one of the
+   steps 2-4 is recovered by that step's own wrapper: the writes and coin movements of THAT step are
+   dropped as a whole, the epoch bookkeeping and gauge payouts of step 1 and the writes of the other
+   steps stay, and the steps after it still run on the state the failed step started from. *)
+Definition sub_step {A : Type} (r : outcome (A * bank * dpays)) (xs : A) (b : bank) : A * bank * dpays :=
+  match r with Ok v => v | _ => (xs, b, []) end.
+
 Definition begin_block (now : Z) (e : benv) (s : rstate) : outcome (rstate * dpays) :=
   match run_epochs now (r_epochs s) (r_gauges s) (be_farm e) (be_recv e) (r_bal s) with
   | Panic => Panic | Err c => Err c
   | Ok (es, gs, b1, p1) =>
-    match run_exts 0 now (r_exts s) (be_ext e) b1 with
-    | Panic => Panic | Err c => Err c
-    | Ok (xs1, b2, p2) =>
-      match run_exts 1 now xs1 (be_ext e) b2 with
-      | Panic => Panic | Err c => Err c
-      | Ok (xs2, b3, p3) =>
-        match run_lends now xs2 (be_lend e) [] 0 b3 with
-        | Panic => Panic | Err c => Err c
-        | Ok (xs3, b4, p4) => Ok (mkR b4 gs es xs3, p1 ++ p2 ++ p3 ++ p4)
-        end
-      end
-    end
+    let '(xs1, b2, p2) := sub_step (run_exts 0 now (r_exts s) (be_ext e) b1) (r_exts s) b1 in
+    let '(xs2, b3, p3) := sub_step (run_exts 1 now xs1 (be_ext e) b2) xs1 b2 in
+    let '(xs3, b4, p4) := sub_step (run_lends now xs2 (be_lend e) [] 0 b3) xs2 b3 in
+    Ok (mkR b4 gs es xs3, p1 ++ p2 ++ p3 ++ p4)
+  end.
+
+(* which of the steps 2-4 kept their writes (the harness cannot see the step results - abci.go only logs
+   them - so this is for the runner's histogram only) *)
+Definition begin_steps_ok (now : Z) (e : benv) (s : rstate) : list bool :=
+  match run_epochs now (r_epochs s) (r_gauges s) (be_farm e) (be_recv e) (r_bal s) with
+  | Ok (_, _, b1, _) =>
+    let r2 := run_exts 0 now (r_exts s) (be_ext e) b1 in
+    let '(xs1, b2, _) := sub_step r2 (r_exts s) b1 in
+    let r3 := run_exts 1 now xs1 (be_ext e) b2 in
+    let '(xs2, b3, _) := sub_step r3 xs1 b2 in
+    [true; is_ok r2; is_ok r3; is_ok (run_lends now xs2 (be_lend e) [] 0 b3)]
+  | _ => [false; false; false; false]
   end.
 
 Inductive gop :=
@@ -542,27 +561,23 @@ Fixpoint kf4_pass (now : Z) (xs : list ext) (le : list lenv) (arr : list (Z * Z)
         end
       else kf4_pass now rest (tl le) arr tot
   end.
+(* a class met inside a step that fails as a whole has no effect (the step is rolled back): the
+   class predicates of a BeginBlocker count only the steps that keep their writes *)
 Definition kf3_begin (now : Z) (e : benv) (s : rstate) : bool :=
   match run_epochs now (r_epochs s) (r_gauges s) (be_farm e) (be_recv e) (r_bal s) with
   | Ok (_, _, b1, _) =>
-      kf3_pass 0 now (r_exts s) (be_ext e) ||
-      match run_exts 0 now (r_exts s) (be_ext e) b1 with
-      | Ok (xs1, _, _) => kf3_pass 1 now xs1 (be_ext e)
-      | _ => false
-      end
+      let r2 := run_exts 0 now (r_exts s) (be_ext e) b1 in
+      (is_ok r2 && kf3_pass 0 now (r_exts s) (be_ext e)) ||
+      let '(xs1, b2, _) := sub_step r2 (r_exts s) b1 in
+      (is_ok (run_exts 1 now xs1 (be_ext e) b2) && kf3_pass 1 now xs1 (be_ext e))
   | _ => false
   end.
 Definition kf4_begin (now : Z) (e : benv) (s : rstate) : bool :=
   match run_epochs now (r_epochs s) (r_gauges s) (be_farm e) (be_recv e) (r_bal s) with
   | Ok (_, _, b1, _) =>
-      match run_exts 0 now (r_exts s) (be_ext e) b1 with
-      | Ok (xs1, b2, _) =>
-          match run_exts 1 now xs1 (be_ext e) b2 with
-          | Ok (xs2, _, _) => kf4_pass now xs2 (be_lend e) [] 0
-          | _ => false
-          end
-      | _ => false
-      end
+      let '(xs1, b2, _) := sub_step (run_exts 0 now (r_exts s) (be_ext e) b1) (r_exts s) b1 in
+      let '(xs2, b3, _) := sub_step (run_exts 1 now xs1 (be_ext e) b2) xs1 b2 in
+      is_ok (run_lends now xs2 (be_lend e) [] 0 b3) && kf4_pass now xs2 (be_lend e) [] 0
   | _ => false
   end.
 Definition kf_step (s : rstate) (o : gop) : bool :=
